@@ -155,6 +155,10 @@ func buildName(dir string, ex explicitDim, cd cpnDim, ns nameShape, idx, rot int
 	k := idx + rot
 	c.Order = k % len(orders)
 	c.WdMode = wdModes[(k/7)%len(wdModes)]
+	if k%5 == 2 {
+		// the project directory is a symbolic link: its own base name is the fallback, not the target's
+		c.Symlink = []string{"releases-2024-05-01", "___", "Other_Name"}[(k/5)%3]
+	}
 	if needE2 {
 		c.EnvFiles = "explicit"
 	} else {
